@@ -592,13 +592,14 @@ func main() {
 	}
 	r := ev.Start("C14", "model_checking")
 	r.RunShards(40, runtime.NumCPU(), 8<<30)
+	wideDefinitions(r)
 	plans := "depth 6 x 1 live handle x <=1 pool deviation; depth 5 x 2 live handles x <=1 deviation"
 	if r.Thorough() {
 		plans = "depth 7 (8 for maxBuffer in {1,2}) x 1 live handle x <=2 pool deviations; depth 6 x 2 live handles x <=2 deviations"
 	}
 	r.Set("configs", 40)
 	r.Set("bounds", plans)
-	r.Rule(fmt.Sprintf("stateless DFS on the real lazyproto code (sync.Pool behind the shim): (third alphabet, complete uses: one step = Decode, read all, fetch no / one / all nested results, read them, Close; all sequences of 3 (thorough 4) uses) (after every Close all OTHER live results and the nested results they handed out are re-read at once) every operation sequence (bounds: %s) over {Decode(input) for each input shape, ReadAll, Nested, NestedAll, ReadNested(+Close on nested, +nested-of-nested), Close} x every answer the pools may give (most-recently-put / any older pooled object / fresh) within the deviation bound, for each of 40 option combinations (mode x maxBuffer {unset,0,1,2,64} x filter {none,halve,zero,identity}). Oracle after every step: every accessor of every live handle equals the reference parse of that handle's own input; no panic; in safe mode the caller's buffer is clobbered right after Decode and every value ever handed out is re-verified after every later step. distinct_nontrivial = executions in which a pooled object was actually recycled. One execution = one state sequence; states/transitions count executions and executed operations (no state merging: no sound cheap key exists for aliasing).", plans))
+	r.Rule(fmt.Sprintf("stateless DFS on the real lazyproto code (sync.Pool behind the shim): (wide definitions: 70 and 130 flat tags, all sequences of <= 3 (4) complete uses over five inputs using tags 1, 63..66 and the last with different wire types, {safe, fast} x maxBuffer {unset,0,1,8}) (third alphabet, complete uses: one step = Decode, read all, fetch no / one / all nested results, read them, Close; all sequences of 3 (thorough 4) uses) (after every Close all OTHER live results and the nested results they handed out are re-read at once) every operation sequence (bounds: %s) over {Decode(input) for each input shape, ReadAll, Nested, NestedAll, ReadNested(+Close on nested, +nested-of-nested), Close} x every answer the pools may give (most-recently-put / any older pooled object / fresh) within the deviation bound, for each of 40 option combinations (mode x maxBuffer {unset,0,1,2,64} x filter {none,halve,zero,identity}). Oracle after every step: every accessor of every live handle equals the reference parse of that handle's own input; no panic; in safe mode the caller's buffer is clobbered right after Decode and every value ever handed out is re-verified after every later step. distinct_nontrivial = executions in which a pooled object was actually recycled. One execution = one state sequence; states/transitions count executions and executed operations (no state merging: no sound cheap key exists for aliasing).", plans))
 	r.Assume("closing or reading a closed handle is API misuse and outside the alphabet")
 	r.Assume("sync.Pool answers of the real runtime are a subset of the enumerated answers")
 	r.Finish()
